@@ -30,12 +30,12 @@ def _near(flat, scores):
 def _cm_cases(draw, max_size=10):
     s = draw(gen.score_sets(max_size=max_size, mag=1e300, max_easy=1000, huge_easy=True,
                             modes=gen.ALL_MODES + ("uint",),
-                            containers=("f64", "f64", "f32", "neg-int", "neg-f32", "pos-int")))
+                            containers=("f64", "f64", "f32", "neg-int", "neg-f32", "pos-int", "f128")))
     thr = draw(gen.shaped_thresholds(s["pos"] + s["neg"], mag=1e300))
     f32 = draw(st.sampled_from([None, None, None, "float32", "float16"])) if s["mode"] in ("grid", "dyadic") else None
     return dict(s=s, thr=thr, sorted=draw(st.booleans()),
-                via=draw(st.sampled_from(["ctor", "ctor", "labels", "lists"])), dtype=f32,
-                thr_as=draw(st.sampled_from(["array", "array", "list", "F", "f32", "f16"])))
+                via=draw(st.sampled_from(["ctor", "ctor", "labels", "lists", "swap-twice"])), dtype=f32,
+                thr_as=draw(st.sampled_from(["array", "array", "list", "F", "f32", "f16", "int"])))
 
 
 def _build(case, sc, ec):
@@ -55,6 +55,8 @@ def _build(case, sc, ec):
         return Scores.from_labels(labels[perm], allv[perm], pos_label=1, **kw)
     if case.get("sorted"):
         return Scores(np.sort(pos), np.sort(neg), is_sorted=True, **kw)
+    if case.get("via") == "swap-twice":  # an object handed out by the library
+        return Scores(pos, neg, **kw).swap().swap()
     return Scores(pos, neg, **kw)
 
 
@@ -68,6 +70,8 @@ def check_cm(case):
         with np.errstate(over="ignore"):
             thr = thr.astype(np.float32 if case["thr_as"] == "f32" else np.float16)
         flat = [float(x) for x in thr.reshape(-1).tolist()]
+    if case.get("thr_as") == "int" and flat and all(math.isfinite(t) and t == int(t) and abs(t) < 2**62 for t in flat):
+        thr = thr.astype(np.int64)  # integral thresholds held as integers
     if case.get("thr_as") == "list" and 0 not in shape:  # nested lists cannot carry size-0 axes
         thr = thr.tolist()
     elif case.get("thr_as") == "F" and len(shape) >= 2:
